@@ -84,7 +84,68 @@ func c10Register() {
 		d := decoration.UTF8BoxLight()
 		d.TopLeft, d.TopRight = "*", "*"
 		decoration.RegisterDecorationName("Acme-Box", d)
+		// late plug-in registration: two dotted style names are USED through every
+		// auto entry point before they are registered (one while nothing of it is
+		// known, one while only its first section is), and registered afterwards
+		d2 := decoration.UTF8BoxHeavy()
+		d2.TopLeft, d2.TopRight = "#", "#"
+		decoration.RegisterDecorationName("c10pre", d2)
+		early := tabular.New()
+		early.AddHeaders("h")
+		early.AddRowItems("v")
+		for _, style := range []string{"c10late.framed", "texttable.c10late.framed", "c10pre.boxed", "texttable.c10pre.boxed"} {
+			style := style
+			capture(func() (string, error) { return auto.Render(early, style) })
+			capture(func() (string, error) { return "", auto.RenderTo(early, &collectWriter{failAt: -1}, style) })
+			capture(func() (string, error) { return auto.Wrap(early, style).Render() })
+			capture(func() (string, error) { return auto.New(style).Render() })
+		}
+		d3 := decoration.UTF8BoxDouble()
+		d3.TopLeft, d3.TopRight = "+", "+"
+		decoration.RegisterDecorationName("c10late.framed", d3)
+		d4 := decoration.UTF8BoxLightCurved()
+		d4.TopLeft, d4.TopRight = "@", "@"
+		decoration.RegisterDecorationName("c10pre.boxed", d4)
 	})
+}
+
+// c10Summary: an item whose text is worked out when the table is rendered, by
+// a render-time callback registered on its cell.
+type c10Summary struct{ text string }
+
+func (s *c10Summary) String() string { return s.text }
+
+type c10Fill struct{ t tabular.Table }
+
+func (f c10Fill) UpdateProperties(po tabular.PropertyOwner) error {
+	cell, ok := po.(*tabular.Cell)
+	if !ok {
+		return nil
+	}
+	if sm, ok := cell.Item().(*c10Summary); ok {
+		sm.text = fmt.Sprintf("of %d rows in all", f.t.NRows())
+		cell.Update()
+	}
+	return nil
+}
+
+// c10AddFill appends a row whose last cell fills itself in at render time.
+func c10AddFill(obj tabular.Table, how int) {
+	obj.AddRowItems("total", &c10Summary{text: "-"})
+	cell, err := obj.CellAt(tabular.CellLocation{Row: obj.NRows(), Column: 2})
+	if err != nil {
+		return
+	}
+	switch how {
+	case 1:
+		obj.RegisterPropertyCallback(cell, tabular.CB_AT_RENDER, tabular.CB_ON_ITSELF, c10Fill{obj})
+	case 2:
+		obj.RegisterPropertyCallback(obj, tabular.CB_AT_RENDER_POSTCELL, tabular.CB_ON_CELL, c10Fill{obj})
+	default:
+		if rows := obj.AllRows(); len(rows) > 0 {
+			obj.RegisterPropertyCallback(rows[len(rows)-1], tabular.CB_AT_RENDER_POSTCELL, tabular.CB_ON_CELL, c10Fill{obj})
+		}
+	}
 }
 
 func c10Poison() {
@@ -104,6 +165,10 @@ type C10Spec struct {
 	Fmt      string       `json:"fmt"` // csv html json markdown text
 	Decor    string       `json:"decor,omitempty"`
 	Variants []C10Variant `json:"variants"`
+	// Fill (1..3): the table ends with a row whose last cell is filled in by a
+	// render-time callback of the application (on the cell at render time / on
+	// the table for every cell after the cell's own / on the row for its cells, post-cell)
+	Fill int `json:"fill,omitempty"`
 }
 
 func c10Style(sp C10Spec, alt bool) string {
@@ -138,12 +203,18 @@ func c10Render(sp C10Spec, v C10Variant) Outcome {
 		obj := c10Create(v.Path)
 		if v.BuildFirst {
 			sp.Table.Build(obj)
+			if sp.Fill > 0 {
+				c10AddFill(obj, sp.Fill)
+			}
 		}
 		for _, k := range v.Nest {
 			obj = c10WrapKind(obj, k)
 		}
 		if !v.BuildFirst {
 			sp.Table.Build(obj)
+			if sp.Fill > 0 {
+				c10AddFill(obj, sp.Fill)
+			}
 		}
 		htmlWrap := func() *html.HTMLTable {
 			ht := html.Wrap(obj)
@@ -321,6 +392,24 @@ func c10Variants(r *RNG, tier string) []C10Variant {
 		vs = append(vs, C10Variant{Path: p, BuildFirst: true, Entry: 2 - (i%2)*2, TargetFirst: true, Pre: []string{"markdown", "text", "text"}, Nest: []string{c10Kinds[i%5]}})
 		vs = append(vs, C10Variant{Path: p, BuildFirst: true, Entry: (i % 2) * 2, Reentrant: true})
 	}
+	// many wrappers / many package-level renders before the target (each leaves a
+	// callback on the core table): 17, 40 and 130 of one measuring kind
+	rep := func(k string, n int) []string {
+		out := make([]string, n)
+		for i := range out {
+			out[i] = k
+		}
+		return out
+	}
+	for i, cnt := range []int{17, 40, 130} {
+		for j, k := range []string{"text", "markdown"} {
+			vs = append(vs, C10Variant{Path: c10Paths[(i+j)%2*3], BuildFirst: true, Entry: (i + 2*j) % 6, Pre: rep(k, cnt)})
+			vs = append(vs, C10Variant{Path: "core", Nest: rep(k, cnt), BuildFirst: j == 0, Entry: (i + j) % 3 * 2})
+		}
+	}
+	mixed := append(append(rep("text", 9), rep("markdown", 9)...), "csv", "json", "html")
+	vs = append(vs, C10Variant{Path: "core", BuildFirst: true, Entry: 1, Pre: mixed})
+	vs = append(vs, C10Variant{Path: "texttable.New", Nest: mixed, BuildFirst: false, Entry: 0})
 	// depth 2 and 3 nestings
 	deep := 12
 	if tier == "thorough" {
@@ -346,16 +435,17 @@ func c10Text(r *RNG) ItemSpec {
 	return Str(pick(r, []string{"a", "bb", "x y", "", "q\"r", "l1\nl2", "é", "<&>", "p|q", "1,2", "日本", "wide　x"}))
 }
 
-var c10Fmts = []struct{ f, d string }{{"csv", ""}, {"html", ""}, {"html", "gen"}, {"json", ""}, {"markdown", ""}, {"text", ""}, {"text", "ascii-simple"}, {"text", "Acme-Box"}}
+var c10Fmts = []struct{ f, d string }{{"csv", ""}, {"html", ""}, {"html", "gen"}, {"json", ""}, {"markdown", ""}, {"text", ""}, {"text", "ascii-simple"}, {"text", "Acme-Box"},
+	{"text", "c10late.framed"}, {"text", "c10pre.boxed"}}
 
 func init() {
 	kindCode := map[string]int{"csv": 0, "html": 1, "json": 2, "markdown": 3, "text": 4}
 	register(&Prop{
 		ID:       "C10",
 		Imports:  "From Tab Require Import Run.Glue Run.C10Run.",
-		CaseType: "(nat * view * list (res (list N)))",
-		CaseFn:   "C10_case",
-		ModelFn:  "C10_model",
+		CaseType: "(nat * view * list (res (list N)) * list nat)",
+		CaseFn:   "C10_case2",
+		ModelFn:  "C10_model2",
 		Rule: "for each table (fixed shapes + random) and each target format (csv, html, json, markdown, text default decoration, text ascii-simple) the same TableSpec is built and rendered along many paths: " +
 			"14 creation paths (tabular.New, the five sub-package New, auto.New of 8 style strings) x nestings of further wrappers (depth 0 and 1 exhaustively over the 5 kinds, deeper ones sampled) x building before or after nesting x other formats rendered from the same object first (each single format on every path, two mixed sequences) x 6 entry points " +
 			"(Wrap(t).Render, package Render, Wrap(t).RenderTo into a buffer, auto.Render, package RenderTo, auto.RenderTo; style strings in several spellings); the first variant is the reference (core table, the format's own Wrap(t).Render()); " +
@@ -406,6 +496,25 @@ func init() {
 					out = append(out, mustJSON(C10Spec{Table: ts, Fmt: fd.f, Decor: fd.d, Variants: c10Variants(r, tier)}))
 				}
 			}
+			// a cell filled in by the application's own render-time callback
+			for i, fd := range c10Fmts {
+				if fd.d == "gen" || len(fd.d) > 12 {
+					continue
+				}
+				// (each variant renders its own fresh table exactly once: an earlier
+				// render would already have filled the cell in)
+				var vs []C10Variant
+				for _, v := range c10Variants(r, tier) {
+					if len(v.Pre) == 0 {
+						vs = append(vs, v)
+					}
+				}
+				out = append(out, mustJSON(C10Spec{Table: tables[i%2], Fmt: fd.f, Decor: fd.d, Fill: 1 + i%3, Variants: vs}))
+				if fd.f == "text" || fd.f == "markdown" {
+					out = append(out, mustJSON(C10Spec{Table: tables[(i+1)%2], Fmt: fd.f, Decor: fd.d, Fill: 1 + (i+1)%3, Variants: vs}))
+					out = append(out, mustJSON(C10Spec{Table: tables[i%2], Fmt: fd.f, Decor: fd.d, Fill: 1 + (i+2)%3, Variants: vs}))
+				}
+			}
 			return out
 		},
 		Run: func(spec json.RawMessage) CaseOut {
@@ -415,8 +524,13 @@ func init() {
 			}
 			t := tabular.New()
 			sp.Table.Build(t)
+			if sp.Fill > 0 {
+				c10AddFill(t, sp.Fill)
+				t.InvokeRenderCallbacks() // the view a renderer reads after the callbacks have run
+			}
 			view := extractView(t)
-			var outs []string
+			var outs, idx []string // the distinct outcomes, and each variant's index into them
+			seen := map[string]int{}
 			var ref Outcome
 			type diff struct {
 				Variant C10Variant
@@ -436,15 +550,25 @@ func init() {
 						sig = sp.Fmt + ":differs-from-reference"
 					}
 				}
-				outs = append(outs, o.Coq())
+				key := o.Kind + "\x00" + string(o.Out)
+				k, ok := seen[key]
+				if !ok {
+					k = len(outs)
+					seen[key] = k
+					outs = append(outs, o.Coq())
+				}
+				idx = append(idx, cqNat(k))
 			}
 			desc := map[string]interface{}{"reference": ref, "variants": len(sp.Variants), "differing_shown": diffs, "sig": sig}
 			tags := append(shapeTags(view), "fmt="+sp.Fmt, "ref="+ref.Kind)
 			if sp.Decor != "" {
 				tags = append(tags, "decor="+sp.Decor)
 			}
+			if sp.Fill > 0 {
+				tags = append(tags, "cell-filled-by-render-callback")
+			}
 			return CaseOut{
-				Coq:        fmt.Sprintf("(%s, %s, %s)", cqNat(kindCode[sp.Fmt]), view.Coq(true), cqList(outs)),
+				Coq:        fmt.Sprintf("(%s, %s, %s, %s)", cqNat(kindCode[sp.Fmt]), view.Coq(true), cqList(outs), cqList(idx)),
 				Desc:       desc,
 				Size:       sp.Table.Size()*100 + len(sp.Variants),
 				Tags:       tags,
@@ -461,24 +585,24 @@ func init() {
 			// keep the reference plus one variant at a time
 			if len(sp.Variants) > 2 {
 				for i := 1; i < len(sp.Variants); i++ {
-					out = append(out, mustJSON(C10Spec{Table: sp.Table, Fmt: sp.Fmt, Decor: sp.Decor, Variants: []C10Variant{sp.Variants[0], sp.Variants[i]}}))
+					out = append(out, mustJSON(C10Spec{Table: sp.Table, Fmt: sp.Fmt, Decor: sp.Decor, Fill: sp.Fill, Variants: []C10Variant{sp.Variants[0], sp.Variants[i]}}))
 				}
 				return out
 			}
 			for _, ts := range shrinkTable(sp.Table) {
-				out = append(out, mustJSON(C10Spec{Table: ts, Fmt: sp.Fmt, Decor: sp.Decor, Variants: sp.Variants}))
+				out = append(out, mustJSON(C10Spec{Table: ts, Fmt: sp.Fmt, Decor: sp.Decor, Fill: sp.Fill, Variants: sp.Variants}))
 			}
 			if len(sp.Variants) == 2 {
 				v := sp.Variants[1]
 				for i := range v.Nest {
 					v2 := v
 					v2.Nest = append(append([]string{}, v.Nest[:i]...), v.Nest[i+1:]...)
-					out = append(out, mustJSON(C10Spec{Table: sp.Table, Fmt: sp.Fmt, Decor: sp.Decor, Variants: []C10Variant{sp.Variants[0], v2}}))
+					out = append(out, mustJSON(C10Spec{Table: sp.Table, Fmt: sp.Fmt, Decor: sp.Decor, Fill: sp.Fill, Variants: []C10Variant{sp.Variants[0], v2}}))
 				}
 				for i := range v.Pre {
 					v2 := v
 					v2.Pre = append(append([]string{}, v.Pre[:i]...), v.Pre[i+1:]...)
-					out = append(out, mustJSON(C10Spec{Table: sp.Table, Fmt: sp.Fmt, Decor: sp.Decor, Variants: []C10Variant{sp.Variants[0], v2}}))
+					out = append(out, mustJSON(C10Spec{Table: sp.Table, Fmt: sp.Fmt, Decor: sp.Decor, Fill: sp.Fill, Variants: []C10Variant{sp.Variants[0], v2}}))
 				}
 			}
 			return out
